@@ -214,10 +214,10 @@ def gen_history(seed, tier, prop, kinds_allowed):
     else:
         wshape = _weighted(r, [([r.randint(1, 4)], 6), ([r.randint(1, 3), r.randint(1, 3)], 2),
                                ([2, r.randint(1, 2), 2], 1 if thorough else 0.3), ([16], 0.4), ([4, 4], 0.4)])     # incl. a 16-byte cipher state
-    if kind in kinds.PARTITIONED and regime == 'exact' and rng.stream(seed, 'attacklayout').random() < 0.03:
-        # 256 guesses x 16 bytes (or 64 x 16): the mask of the matmul kernel has rows x words x classes entries
-        wshape = rng.stream(seed, 'attacklayout2').choice([[256, 16], [64, 16], [256, 4]])
-        n = rng.stream(seed, 'attacklayout3').randint(120, 260)
+    if kind in kinds.PARTITIONED and regime == 'exact' and rng.stream(seed, 'attacklayout').random() < (0.12 if prop == 'C11' else 0.03):
+        # 256 guesses x 16 bytes: the mask of the matmul kernel has rows x words x classes entries (millions for a batch of a few hundred rows)
+        wshape = rng.stream(seed, 'attacklayout2').choice([[256, 16], [256, 16], [128, 16], [64, 16]])
+        n = rng.stream(seed, 'attacklayout3').randint(150, 420)
         m = min(m, 3)
         scn['attack_layout'] = True
     scn['wshape'] = wshape
@@ -417,6 +417,15 @@ def generate_c11(seed, tier):
         scn['tdtype'] = nr.choice(['int16', 'int16', 'uint8'])
         scn['amp'] = {'int16': 4094, 'uint8': 255}[scn['tdtype']]
         scn['offset'] = nr.choice([0, 0, 4096, 20000]) if scn['tdtype'] == 'int16' else 0
+    if scn.get('attack_layout') and scn['regime'] == 'exact':
+        # three or four batches of 120-160 rows each: the kernel that handles the later ones differs between the environments
+        al = rng.stream(seed, 'attacklayout4')
+        cuts, a = [], 0
+        for _ in range(al.choice([3, 3, 4])):
+            b = a + al.randint(120, 160)
+            cuts.append(['u', a, b])
+            a = b
+        scn['ops'] = cuts
     ups = [o for o in scn['ops'] if o[0] == 'u'][:8]
     scn['ops'] = ups
     # environments = kernel schedules x worker-count sequences
